@@ -286,6 +286,34 @@ Definition c01_wrap_all (l : list Q) : list Q :=
   if existsb c01_gt180 l then map c01_wrap180 l else l.
 
 (* ---------------------------------------------------------------------------------------------- *)
+(* lazily derived attributes (grid/grid.py): Grid.node_lon / Grid.node_lat populate BOTH coordinates from
+   xyz when absent and then wrap the longitudes; Grid.face_areas computes areas only when the source
+   supplied none, and Grid.face_jacobian goes through that getter.  State = what Grid._ds holds.        *)
+
+Record c01_lazy := { lz_lon : option (list Q); lz_areas : option (list Q) }.
+
+Inductive c01_rd := RdNodeLon | RdNodeLat | RdFaceAreas | RdFaceJacobian | RdOther.
+
+(* derived_lon: what _populate_node_latlon writes (0..360); computed: what compute_face_areas returns *)
+Definition c01_rd_step (derived_lon computed : list Q) (s : c01_lazy) (r : c01_rd) : c01_lazy :=
+  match r with
+  | RdNodeLon | RdNodeLat =>
+      match lz_lon s with
+      | Some _ => s
+      | None => {| lz_lon := Some (c01_wrap_all derived_lon); lz_areas := lz_areas s |}
+      end
+  | RdFaceAreas | RdFaceJacobian =>
+      match lz_areas s with
+      | Some _ => s
+      | None => {| lz_lon := lz_lon s; lz_areas := Some computed |}
+      end
+  | RdOther => s
+  end.
+
+Definition c01_rd_run (derived_lon computed : list Q) (s : c01_lazy) (rs : list c01_rd) : c01_lazy :=
+  fold_left (c01_rd_step derived_lon computed) rs s.
+
+(* ---------------------------------------------------------------------------------------------- *)
 (* format sniffing: io/utils.py _parse_grid_type — first matching test wins                          *)
 
 Record c01_keys := {
